@@ -18,7 +18,7 @@ RULE = ("Generated: stand-alone assets of every class and portfolios of them (T 
         "[off_a, off_a+n_a) in concatenation order, there c,l,u, its rows of A,b,cType and its mapping rows (shifted "
         "back, as multiset) equal the stand-alone problem of a fresh copy, its rows are zero elsewhere; exactly one N "
         "row per (node,step) with dispatch rows, coefficient = sum of disp_factor per variable, b=0, map_nodal_restr "
-        "lists the same pairs in row order; periodic assets: two active steps share a variable iff they are a whole number of periods apart within one duration block (periods and blocks counted from the grid start, as C13's reference does), for every node and variable name. In 1 of 2 cases also the split build (6h, 12h, d): c is the stacked c, interval k's rows of the split mapping are its own rows with the index shifted by the number of variables before it and the steps by a constant, step ranges of successive intervals follow each other. Non-trivial: some asset has an unmapped variable, several rows per "
+        "lists the same pairs in row order; periodic assets: steps sharing a variable are whole periods apart (all of them without a duration; within q periods and with at most one extra partial block with a duration - where blocks begin is not assumed), identically for every node and variable name. In 1 of 2 cases also the split build (6h, 12h, d): c is the stacked c, interval k's rows of the split mapping are its own rows with the index shifted by the number of variables before it and the steps by a constant, step ranges of successive intervals follow each other. Non-trivial: some asset has an unmapped variable, several rows per "
         "variable, appended variables (bool/scale) or an adversarial name, and the portfolio has >= 2 assets. "
         "Distinct = distinct spec hash.")
 ASSUMPTIONS = ["structural comparison rtol 1e-9 / atol 1e-12, no solver",
@@ -241,9 +241,10 @@ def check(spec):
     if off != n:
         out.fail("assets have %d variables in total but portfolio has %d" % (off, n))
     # ---------------------------------------------------------------- periodic assets: which steps share a variable
-    # (independent of the block differential, which compares EAO with itself): two active steps of a periodic asset
-    # refer to the same variable iff they are a whole number of periods apart (within the same duration block),
-    # for every node / variable name alike
+    # (independent of the block differential, which compares EAO with itself).  Steps that share a variable are a whole
+    # number of periods apart; without a duration all such steps share one; with a duration of q periods the steps of a
+    # variable lie within q periods and no more than one extra (partial) block of variables exists - where the blocks
+    # begin is EAO's calendar arithmetic and not assumed; every node / variable name of the asset joins the same steps
     for a in spec["assets"]:
         if not a.get("_p") or a.get("freq"):
             continue
@@ -254,27 +255,42 @@ def check(spec):
             continue
         out.label("periodic_rows_checked")
         groups = {}
-        for i, node, vn, t in zip(m_.index.values.astype(int), m_["node"].astype(str).values, m_["var_name"].astype(str).values,
-                                  m_["time_step"].values.astype(int)):
-            groups.setdefault((node, vn), {})[int(t)] = int(i)
+        for i_, node, vn, t in zip(m_.index.values.astype(int), m_["node"].astype(str).values, m_["var_name"].astype(str).values,
+                                   m_["time_step"].values.astype(int)):
+            groups.setdefault((node, vn), {})[int(t)] = int(i_)
+        parts = {}
+        msg = None
         for (node, vn), tv in groups.items():
+            classes = {}
+            for t, v in tv.items():
+                classes.setdefault(v, []).append(t)
+            for v, ts_ in classes.items():
+                if any((t - ts_[0]) % p_ for t in ts_):
+                    msg = "variable %d joins steps %s that are not whole periods apart" % (v, sorted(ts_))
+                elif q_ is not None and max(ts_) - min(ts_) >= p_ * q_:
+                    msg = "variable %d joins steps %s over more than the duration of %d periods" % (v, sorted(ts_), q_)
             steps = sorted(tv)
-            bad = None
-            for x in steps:
-                for y in steps:
-                    if y <= x:
-                        continue
-                    same_exp = (y - x) % p_ == 0 and (q_ is None or x // (p_ * q_) == y // (p_ * q_))
-                    if (tv[x] == tv[y]) != same_exp:
-                        bad = (x, y, tv[x], tv[y], same_exp)
-                        break
-                if bad:
-                    break
-            if bad:
-                out.fail("periodic asset %s (period %d steps%s), node %s %s: steps %d and %d refer to variables %d and %d, expected %s"
-                         % (a["name"], p_, "" if q_ is None else ", duration %d periods" % q_, node, vn, bad[0], bad[1], bad[2], bad[3],
-                            "the same variable" if bad[4] else "different variables"))
+            if q_ is None:
+                for x in steps:
+                    for y in steps:
+                        if y > x and (y - x) % p_ == 0 and tv[x] != tv[y]:
+                            msg = "steps %d and %d are whole periods apart but refer to variables %d and %d" % (x, y, tv[x], tv[y])
+            else:
+                span = steps[-1] - steps[0] + 1
+                most = (-(-span // (p_ * q_)) + 1) * p_
+                if len(classes) > most:
+                    msg = "%d variables for %d steps, at most %d expected" % (len(classes), span, most)
+            parts[(node, vn)] = (tuple(steps), frozenset(frozenset(c) for c in classes.values()))
+            if msg:
+                out.fail("periodic asset %s (period %d steps%s), node %s %s: %s"
+                         % (a["name"], p_, "" if q_ is None else ", duration %d periods" % q_, node, vn, msg))
                 break
+        if not msg:
+            by_steps = {}
+            for k_, (st_, pa_) in parts.items():
+                by_steps.setdefault(st_, set()).add(pa_)
+            if any(len(v) > 1 for v in by_steps.values()):
+                out.fail("periodic asset %s: its nodes / variable names join different sets of steps" % a["name"])
     if len(set(op.mapping["asset"].unique()) - set(a["name"] for a in spec["assets"])):
         out.fail("mapping names unknown assets %s" % (set(op.mapping["asset"].unique()) - set(a["name"] for a in spec["assets"])))
     # ---------------------------------------------------------------- nodal rows
